@@ -21,6 +21,7 @@ import (
 	"strconv"
 	"strings"
 	"sync"
+	"sync/atomic"
 	"time"
 
 	fancmd "github.com/markusressel/fan2go/cmd/fan"
@@ -88,6 +89,11 @@ type startupStepObs struct {
 	Final   [][2]int `json:"final"` // controller's pwmMap after a start (nil = nil map)
 	HasFin  bool     `json:"has_final"`
 	Writes  int      `json:"pwm_writes"`
+	// C05: after a start, the controller's third-party counter once Cycles control cycles have completed, and whether
+	// anything but the controller wrote the fan's files during that start (never, unless a scenario injects it)
+	Cycles    int  `json:"cycles"`
+	Count     int  `json:"third_party_count"`
+	Disturbed bool `json:"disturbed"`
 }
 type startupObs struct {
 	Steps []startupStepObs `json:"steps"`
@@ -499,10 +505,12 @@ type startupCurve struct {
 	first chan struct{}
 	hook  func()
 	fail  bool // every evaluation fails (control-loop fault)
+	evals int32
 }
 
 func (c *startupCurve) GetId() string { return "startup_curve" }
 func (c *startupCurve) Evaluate() (int, error) {
+	atomic.AddInt32(&c.evals, 1)
 	c.once.Do(func() {
 		if c.hook != nil {
 			c.hook()
@@ -577,6 +585,29 @@ func (e *startupEnv) runInitDirect(d *startupDev, ready func()) error {
 	e.log(d.spec.Id, "RET", 0, "")
 	e.mu.Unlock()
 	return err
+}
+
+// cyclesAndCount waits until n control cycles have completed (the (n+1)-th evaluation has begun) and reads the
+// controller's third-party counter
+func (p *startupProc) cyclesAndCount(n int) (int, int) {
+	deadline := time.Now().Add(10 * time.Second)
+	for int(atomic.LoadInt32(&p.curve.evals)) < n+1 && time.Now().Before(deadline) {
+		select {
+		case err := <-p.done:
+			p.done <- err
+			deadline = time.Now()
+		default:
+			time.Sleep(500 * time.Microsecond)
+		}
+	}
+	done := int(atomic.LoadInt32(&p.curve.evals)) - 1
+	if done < 0 {
+		done = 0
+	}
+	if done > n {
+		done = n
+	}
+	return done, p.ctl.GetStatistics().UnexpectedPwmValueCount
 }
 
 // waitFirstCycle blocks until the first regulation cycle or the return of Run; reports (regulating, err)
@@ -773,6 +804,9 @@ func startupRun(ctx *Ctx, in startupIn) startupObs {
 			if pm := p.ctl.VerifPwmMap(); pm != nil {
 				step.Final = startupMapToPairs(pm)
 				step.HasFin = true
+			}
+			if reg {
+				step.Cycles, step.Count = p.cyclesAndCount(3)
 			}
 		case "stop":
 		case "reset":
@@ -975,6 +1009,9 @@ func startupRunCli(env *startupEnv, in startupIn) startupObs {
 				step.Final = startupMapToPairs(pm)
 				step.HasFin = true
 			}
+			if reg {
+				step.Cycles, step.Count = p.cyclesAndCount(3)
+			}
 		case "stop":
 		case "reset":
 			if err := cobra(d, "reset"); err != nil {
@@ -1098,6 +1135,9 @@ func startupRunConcurrent(env *startupEnv, in startupIn) startupObs {
 			step.Final = startupMapToPairs(pm)
 			step.HasFin = true
 		}
+		if regs[i] {
+			step.Cycles, step.Count = p.cyclesAndCount(3)
+		}
 		obs.Steps = append(obs.Steps, step)
 	}
 	for i, p := range procs {
@@ -1187,7 +1227,11 @@ func startupCoq(in startupIn, obs startupObs) string {
 	for i, s := range obs.Steps {
 		st[i] = "mkOStep " + cList(s.Acts) + " " + cBool(s.HasData) + " " + cBool(s.HasMap) + " " + startupCOptMap(s.HasFin, s.Final)
 	}
-	return cRec("mkCase", cList(fl), cList(db), cList(cm), cList(st))
+	c05 := make([]string, len(obs.Steps))
+	for i, s := range obs.Steps {
+		c05[i] = "(" + cBool(s.Disturbed) + ", " + cZ(s.Cycles) + ", " + cZ(s.Count) + ")"
+	}
+	return cRec("mkCase", cList(fl), cList(db), cList(cm), cList(st), cList(c05))
 }
 
 // ---------------------------------------------------------------- generators
@@ -1420,6 +1464,12 @@ func startupObsTags(in startupIn, obs startupObs) ([]string, bool) {
 		}
 		for _, a := range obs.Steps[i].Acts {
 			add("obs-" + c.Op + "-" + a)
+		}
+		if c.Op == "start" && obs.Steps[i].Cycles > 0 {
+			add("c05-cycles-after-start=" + itoa(obs.Steps[i].Cycles))
+			if obs.Steps[i].Count > 0 {
+				add("c05-third-party-counted")
+			}
 		}
 	}
 	return tags, starts >= 2
